@@ -315,6 +315,11 @@ def pkthdr(db, rep):
                                      {"len": "BPF `len`, `greater` and `less` tests and the on-file original length are wrong",
                                       "caplen": "libpcap sees no captured bytes",
                                       "ts": "the frame's timestamp is not written"}[field]))
+                elif field == "caplen" and caplen_overshoots(f, call, sets):
+                    rep.violation("R5-pkthdr", key, facts.loc(f, sets[0]),
+                                  "header.caplen = `%s` is not bounded by the number of bytes actually handed to libpcap (`%s`): libpcap "
+                                  "reads caplen bytes from that buffer, so a larger value reads past its end"
+                                  % (facts.expr_str(sets[0]["c"][-1])[:80], caplen_overshoots(f, call, sets)))
                 else:
                     rep.ok("R5-pkthdr", key, facts.loc(f, call), "header.%s = %s on every path to the call"
                            % (field, facts.expr_str(sets[0]["c"][-1])))
@@ -385,6 +390,11 @@ def carry_timestamp(db, rep):
                     if u["k"] == "MemberExpr" and u.get("member") == "ts_" and facts.strip_all(u["c"][0])["k"] == "CXXThisExpr" and from_src(w):
                         stores.append(x)
         site = facts.loc(f)
+        nd = null_deref_of_source(f, srcs)
+        if nd is not None:
+            rep.violation("R6-carry-timestamp", key + ":empty-source", facts.loc(f, nd),
+                          "`%s` is evaluated without a test that the source packet holds a layer: copying an empty Packet (the end / "
+                          "exhausted SnifferIterator holds one) dereferences a null pointer" % facts.expr_str(nd)[:60])
         if good:
             rep.ok("R6-carry-timestamp", key, site, "ts_ initialised from `%s`" % facts.expr_str(good[1]))
             continue
@@ -414,3 +424,79 @@ def carry_timestamp(db, rep):
         rep.violation("R6-carry-timestamp", key, site,
                       "the new Packet does not take the timestamp of `%s`: ts_ is never stored from it (a capture moved or copied "
                       "through this member reports timestamp 0 / another time)" % srcs[0]["name"])
+
+
+def caplen_overshoots(f, call, sets):
+    """the data argument of the libpcap call is `&X[0]` / `X.data()` of a byte container X (or a pointer parameter that comes
+    with a size parameter): every store to caplen must be X.size() (resp. that size parameter), possibly cast or under min().
+    Returns a description of the bound when a store is something else, else None."""
+    data = facts.strip_all(call["c"][-1])
+    bound = None
+    for y in facts.walk(data):
+        if y["k"] == "DeclRefExpr" and y.get("var"):
+            t = facts.ty(f, y) or {}
+            if t.get("k") == "rec" or (t.get("k") == "ref" and (t.get("to") or {}).get("k") == "rec"):
+                bound = ("cont", y["var"], y.get("name"))
+            elif t.get("k") == "ptr" and y.get("parm"):
+                ps = [p for p in f["params"] if (facts.tyi(f, p.get("t")) or {}).get("k") == "int"]
+                if ps:
+                    bound = ("param", ps[0]["var"], ps[0]["name"])
+    if bound is None:
+        return None
+
+    def bounded(e):
+        e0 = facts.strip_all(e)
+        if bound[0] == "param":
+            return e0["k"] == "DeclRefExpr" and e0.get("var") == bound[1]
+        if e0["k"] == "CXXMemberCallExpr" and e0.get("cname") == "size" and e0["c"][0].get("c") and \
+                facts.strip_all(e0["c"][0]["c"][0]).get("var") == bound[1]:
+            return True
+        if e0["k"] == "CallExpr" and e0.get("cname") == "min":
+            return any(bounded(a) for a in e0["c"][1:])
+        if e0["k"] == "ConditionalOperator":
+            return False
+        return False
+    for st in sets:
+        if not bounded(st["c"][-1]):
+            return "%s%s" % (bound[2], ".size()" if bound[0] == "cont" else "")
+    return None
+
+
+def null_deref_of_source(f, srcs):
+    """in a Packet member copying from another Packet: a member call through the source's layer pointer that is not
+    dominated by a test of that pointer"""
+    pk = []
+    for prm in srcs:
+        t = facts.tyi(f, prm.get("t")) or {}
+        while t.get("k") in ("ref", "ptr") and t.get("to"):
+            t = t["to"]
+        if t.get("name") == "Tins::Packet":
+            pk.append(prm["var"])
+    if not pk:
+        return None
+    g = cfg.FnCFG(f)
+
+    def src_ptr(e):
+        e0 = facts.strip_all(e)
+        if e0["k"] == "CXXMemberCallExpr" and e0.get("cname") == "pdu" and e0["c"][0].get("c"):
+            return facts.strip_all(e0["c"][0]["c"][0]).get("var") in pk
+        if e0["k"] == "MemberExpr" and e0.get("member") == "pdu_" and e0.get("c"):
+            return facts.strip_all(e0["c"][0]).get("var") in pk
+        return False
+    nodes = list(facts.fn_nodes(f))
+    for i in f.get("inits", []):
+        nodes += list(facts.walk(i["e"]))
+    for x in nodes:
+        if x["k"] == "CXXMemberCallExpr" and x["c"] and x["c"][0]["k"] == "MemberExpr" and x["c"][0].get("arrow") and \
+                x["c"][0].get("c") and src_ptr(x["c"][0]["c"][0]):
+            pos = g.pos(x)
+            ok = False
+            if pos is not None:
+                for op, l, r in cond.guards_facts(g, pos):
+                    if op == "true" and src_ptr(l):
+                        ok = True
+                    if op == "!=" and r is not None and ((src_ptr(l) and facts.cval(r) == 0) or (src_ptr(r) and facts.cval(l) == 0)):
+                        ok = True
+            if not ok:
+                return x
+    return None
